@@ -75,6 +75,7 @@ CASES = {
         "caret-r-kelvin": ("U+212A matched the case-insensitive ^R regex (reported by a sub-agent while seeding)", err("\t.word ^R\u212a\n", [])),
         "align-huge": ("OverflowError building the zero fill of '.align <huge>' (statement grid, thorough tier)", err("x = 5\nlab:\tnop\n\t.align 1<<x (lab)\n", ["value-out-of-bounds"])),
         "huge-value-in-message": ("a branch distance of 5934 digits in the out-of-bounds message hit Python's int-to-str limit (atheris campaign)", err("l:\tbeq 4 _ \"ab\"\n", ["branch-out-of-bounds"])),
+        "self-include": ("a file including itself without .once exhausted the stack (reported by a sub-agent while seeding)", dict(err(None, ["recursive-include"], {"m.mac": "\tnop\n\t.include \"m.mac\"\n"}, ["m.mac"]), scratch=True)),
         "superscript-digit": ("str.isdigit() character that int() rejects", err("\t.word 1\u00b2\n", [])),
     },
     "C03": {
